@@ -11,7 +11,9 @@ PROPERTY = 'C19'
 LEVEL = 'exploration'
 RULE = ("case = 1-5 watchers with priorities from a small range (ties "
         "likely), numprocesses 0-3, per-watcher warmup_delay in {0, 0.1, "
-        "0.5}, global warmup_delay in {0, 0.2, 1}, autostart flags; the "
+        "0.5}, global warmup_delay in {0, 0.2, 1}, autostart flags, a "
+        "per-spawn cost (virtual time a fork+exec takes) in {1 us, 20 ms, "
+        "45 ms}; the "
         "daemon start plus 0-3 further sequences (start or restart without "
         "a name or with a glob matching several watchers, stop in between), "
         "with worker deaths injected at generated kernel-call boundaries of "
@@ -81,6 +83,7 @@ def analyse(seq_name, spawns, wmap, order_expected, gwarm, viols):
 def execute(case):
     hc = {"watchers": [dict(wc) for wc in case["watchers"]],
           "arbiter": {"warmup_delay": case["global_warmup"]},
+          "spawn_cost": case.get("spawn_cost", 1e-6),
           "ops": [], "tape": []}
     h = History(hc)
     w = h.world
@@ -188,6 +191,8 @@ def _strategy():
             seqs.append(sq)
         return {"watchers": ws,
                 "global_warmup": draw(st.sampled_from([0, 0.2, 1])),
+                "spawn_cost": draw(st.sampled_from([1e-6, 1e-6, 0.02,
+                                                    0.045])),
                 "start_faults": draw(st.lists(fault, max_size=2)),
                 "sequences": seqs}
     return case()
